@@ -36,7 +36,14 @@ def generate(ctx):
     for i in range(ctx.n(150, 3000)):
         k = rng.random()
         nrec = rng.randint(1, 4) if k < 0.5 else rng.randint(5, 15) if k < 0.9 else rng.randint(16, 40)
-        yield {"kind": "crash", "ops": G.gen_valid_session(rng, nrec=nrec, small_numbers=True), "valid": True}
+        ops = G.gen_valid_session(rng, nrec=nrec, small_numbers=True)
+        if rng.random() < 0.2:
+            # names that read as numbers: an atom line mistaken for the box line would parse
+            for o in ops:
+                if o[0] == "w":
+                    o[1][1] = rng.choice(["1", "0", "e5", "7", "12", ".5"])
+                    o[1][2] = rng.choice(["1", "2", "33", "0"])
+        yield {"kind": "crash", "ops": ops, "valid": True}
     # outside the quantifier: more records than declared, with names that read as numbers
     for i in range(ctx.n(30, 600)):
         nrec = rng.randint(2, 5)
